@@ -4,10 +4,10 @@
    encoding, direction masking).
 
    Encoders are byte-exact (compared with rust-protobuf's output on every generated proof).
-   Decoders answer POk p, PReject (the implementation certainly returns an error) or POutside (the
-   bytes use wire features whose treatment is the protobuf library's business, not akd's: unknown
-   fields, wrong wire types, duplicated singular fields, groups, fixed-width fields, over-long
-   varints); the correspondence compares the first two answers with the implementation and only
+   Decoders answer POk p, PReject (the conversion layer of akd certainly returns an error) or
+   POutside (the bytes use wire features whose treatment is the protobuf library's business, not
+   akd's: unknown fields, wrong wire types, duplicated singular fields, groups, fixed-width fields,
+   over-long varints, input that ends inside a varint or before a declared length is exhausted); the correspondence compares the first two answers with the implementation and only
    checks absence of panics for the third.  Executable. *)
 From Coq Require Import List Bool Arith NArith Lia.
 From Akd Require GenConsts.
@@ -54,7 +54,7 @@ Fixpoint unvarint (bs : bytes) : option (N * nat * bytes) :=
 (* a varint of at most [maxlen] bytes and value below [bound] *)
 Definition read_var (maxlen : nat) (bound : N) (bs : bytes) : pres (N * bytes) :=
   match unvarint bs with
-  | None => PReject
+  | None => POutside   (* the input ends inside a varint: left to the library *)
   | Some (n, k, r) => if (maxlen <? k)%nat || (bound <=? n) then POutside else POk (n, r)
   end.
 
@@ -89,7 +89,7 @@ Definition parse_one (sch : schema) (bs : bytes) : pres (field * bytes) :=
   | Some KLen =>
     if wt =? 2 then
       lr <- read_var 10 two64 (snd tr) ;;
-      if N.of_nat (length (snd lr)) <? fst lr then PReject
+      if N.of_nat (length (snd lr)) <? fst lr then POutside   (* declared length beyond the input: rust-protobuf reads up to the end and accepts a message that stops at a field boundary *)
       else POk ((fno, WLen (firstn (N.to_nat (fst lr)) (snd lr))), skipn (N.to_nat (fst lr)) (snd lr))
     else POutside
   end.
